@@ -102,6 +102,12 @@ func (m *Model) DeriveValues(old, new proto.Message) {
 
 	if oldVal.PresetIndex != newVal.PresetIndex {
 		// cap the index if needed, and update the preset and percentage
+		if len(m.presets) == 0 {
+			// no presets to index into
+			newVal.PresetIndex = -1
+			newVal.Preset = ""
+			return
+		}
 		if newVal.PresetIndex >= int32(len(m.presets)) {
 			newVal.PresetIndex = int32(len(m.presets) - 1)
 		}
